@@ -37,6 +37,7 @@ fn engine_by_name(n: &str) -> Option<Box<dyn Engine>> {
         "task" => Some(Box::new(engines::task::TaskEngine)),
         "queue" => Some(Box::new(engines::queue::QueueEngine)),
         "net" => Some(Box::new(engines::net::Net)),
+        "bcast" => Some(Box::new(engines::bcast::Bcast)),
         "synccell" => Some(Box::new(engines::synccell::SyncCellEngine)),
         _ => None,
     }
